@@ -109,8 +109,8 @@ func c01Classify(err error) int64 {
 // ---- the cooperating malicious endpoint -------------------------------------
 // It runs Noise XX with flynn/noise directly and puts whatever mk returns into
 // its handshake payload; it validates nothing.
-func c01Evil(c net.Conn, initiator bool, prologue []byte, mk func(static []byte) []byte) error {
-	return c01EvilCapture(c, initiator, prologue, mk, nil)
+func c01Evil(c net.Conn, initiator bool, prologue []byte, mk func(static []byte) []byte, early func(static []byte) []byte) error {
+	return c01EvilCapture(c, initiator, prologue, mk, nil, early)
 }
 
 // recorded signatures of honest peers: [key type][name-1], harvested from a real
@@ -137,7 +137,7 @@ func c01RecordedSig(kt, name int) []byte {
 			tpt.SecureInbound(context.Background(), b, "")
 		}
 	}()
-	c01EvilCapture(a, true, nil, func(static []byte) []byte { return c01ForgedPayload(kt, 3, 3, 0, static) }, &captured)
+	c01EvilCapture(a, true, nil, func(static []byte) []byte { return c01ForgedPayload(kt, 3, 3, 0, static) }, &captured, nil)
 	w.Done()
 	<-done
 	nhp := new(pb.NoiseHandshakePayload)
@@ -147,7 +147,8 @@ func c01RecordedSig(kt, name int) []byte {
 	return c01Recorded[kt][name-1]
 }
 
-func c01EvilCapture(c net.Conn, initiator bool, prologue []byte, mk func(static []byte) []byte, capture *[]byte) error {
+// early (initiator only): what it puts into message 1, where an honest endpoint sends no payload
+func c01EvilCapture(c net.Conn, initiator bool, prologue []byte, mk func(static []byte) []byte, capture *[]byte, early func(static []byte) []byte) error {
 	kp, err := fnoise.DH25519.GenerateKeypair(rand.Reader)
 	if err != nil {
 		return err
@@ -182,7 +183,11 @@ func c01EvilCapture(c net.Conn, initiator bool, prologue []byte, mk func(static 
 		return err
 	}
 	if initiator {
-		if err := send(nil); err != nil {
+		var m1 []byte
+		if early != nil {
+			m1 = early(kp.Public)
+		}
+		if err := send(m1); err != nil {
 			return err
 		}
 		if err := recv(); err != nil {
@@ -199,11 +204,16 @@ func c01EvilCapture(c net.Conn, initiator bool, prologue []byte, mk func(static 
 	return recv()
 }
 
-// forged payload: claim 1..3 key of that name (type kt), 4 junk, 5 empty, 10*v+k key k re-encoded non-canonically;
+// forged payload: claim 1..3 key of that name (type kt), 4 junk, 5 empty (field omitted), 10*v+k key k re-encoded non-canonically;
 // signer 1..3 (that key signs), 4 junk, 5 empty; sm 0 prefix++static, 1 prefix++another static, 2 static only
+// claim 6: the WHOLE payload is zero-length (plain Noise XX, no libp2p payload); 7: bytes that are not a protobuf message
 func c01ForgedPayload(kt int, claim, signer, sm int, static []byte) []byte {
 	var keyBytes, sig []byte
 	switch claim {
+	case 6:
+		return nil
+	case 7:
+		return []byte{0x0a, 0x7f, 0x01, 0x02} // field 1, length 127, two bytes follow
 	case 1, 2, 3:
 		keyBytes, _ = crypto.MarshalPublicKey(c01Keys[kt][claim-1].GetPublic())
 	case 4:
@@ -418,7 +428,11 @@ type c01Case struct {
 	kt      [2]int
 	sd      [2]c01Side // 0 initiator, 1 responder
 	e       c01Edit
+	// key type of the identity a side names as expected peer: 0 = the remote endpoint's key type, 1..4 = key type
+	// xkt-1 (the named identity is then E of that type), 5 = a string that is not a well-formed peer ID
+	xkt     [2]int
 	forge   bool
+	fearly  bool // the forging initiator also puts a payload (own key, good signature) into message 1
 	finit   bool
 	fclaim  int
 	fsigner int
@@ -486,7 +500,14 @@ func c01Endpoint(c *c01Case, role int, conn net.Conn) c01Obs {
 	}
 	var exp peer.ID
 	if sd.exp != 0 {
-		exp = c01IDs[okt][sd.exp-1]
+		switch x := c.xkt[role]; {
+		case x == 0:
+			exp = c01IDs[okt][sd.exp-1]
+		case x <= 4:
+			exp = c01IDs[x-1][sd.exp-1]
+		default:
+			exp = peer.ID("c01-not-a-peer-id")
+		}
 	}
 	faulty := c.fault && c.pinit == (role == 0)
 	if faulty && c.pstage <= 1 {
@@ -563,9 +584,13 @@ func c01Run(c *c01Case, lens *[4]int) ([]int64, bool) {
 				defer w.Done()
 				if c.forge && c.finit == (role == 0) {
 					kt := c.kt[role]
+					var early func(static []byte) []byte
+					if c.fearly && role == 0 {
+						early = func(static []byte) []byte { return c01ForgedPayload(kt, 3, 3, 0, static) }
+					}
 					c01Evil(conn, role == 0, c01Prologues[c.sd[role].pro], func(static []byte) []byte {
 						return c01ForgedPayload(kt, c.fclaim, c.fsigner, c.fsm, static)
-					})
+					}, early)
 					obs[s][role] = c01Obs{clsUnobserved, 0, 0}
 					return
 				}
@@ -580,13 +605,17 @@ func c01Run(c *c01Case, lens *[4]int) ([]int64, bool) {
 		}
 		return 0
 	}
-	line := []int64{1, int64(c.kt[0]), int64(c.kt[1])}
+	line := []int64{1, int64(c.kt[0] + 10*c.xkt[0]), int64(c.kt[1] + 10*c.xkt[1])}
 	for r := 0; r < 2; r++ {
 		sd := c.sd[r]
 		line = append(line, int64(sd.id), int64(sd.sess), int64(sd.dis), int64(sd.exp), int64(sd.pro))
 	}
 	line = append(line, sym.ek, sym.em, sym.ea, sym.eb, sym.pos)
-	line = append(line, b2i(c.forge), b2i(c.finit), int64(c.fclaim), int64(c.fsigner), int64(c.fsm))
+	fk := b2i(c.forge)
+	if c.forge && c.fearly {
+		fk = 2
+	}
+	line = append(line, fk, b2i(c.finit), int64(c.fclaim), int64(c.fsigner), int64(c.fsm))
 	line = append(line, b2i(c.fault), b2i(c.pinit), int64(c.pstage), int64(c.pidx))
 	line = append(line, int64(nsess))
 	for s := 0; s < nsess; s++ {
@@ -722,8 +751,27 @@ func c01Generate(t *testing.T, rnd *verifh.Rand, types []int, thorough bool) []c
 				if finit == 1 {
 					victim, vrole = 2, 1
 				}
+				// claim, signer, signed message, early (a payload also in message 1; forging initiator only)
+				var forgeries [][4]int
 				for _, claim := range []int{1, 2, 3, 4, 5, 13, 23, 33, 11, 22, 31} {
 					for _, sg := range [][2]int{{3, 0}, {3, 1}, {3, 2}, {1, 1}, {2, 1}, {4, 0}, {5, 0}} {
+						forgeries = append(forgeries, [4]int{claim, sg[0], sg[1], 0})
+					}
+				}
+				// payload fields omitted by a remote that otherwise completes Noise XX correctly: the WHOLE payload
+				// zero-length (6) or not a protobuf message (7) in its message 2 / message 3, next to key omitted (5),
+				// signature omitted (signer 5) and both omitted with only the extensions present (above)
+				forgeries = append(forgeries, [4]int{6, 5, 0, 0}, [4]int{6, 3, 0, 0}, [4]int{7, 5, 0, 0}, [4]int{7, 4, 0, 0})
+				if finit == 1 {
+					// ... and the inverse for message 1 (honestly empty): a valid payload already there, then in
+					// message 3 the same again (harmless: completes as E) / nothing / key and signature omitted /
+					// somebody else's key / junk
+					forgeries = append(forgeries, [4]int{3, 3, 0, 1}, [4]int{6, 5, 0, 1}, [4]int{5, 5, 0, 1}, [4]int{7, 5, 0, 1},
+						[4]int{2, 3, 0, 1}, [4]int{3, 5, 0, 1}, [4]int{5, 3, 0, 1})
+				}
+				{
+					for _, fg := range forgeries {
+						claim, sg, early := fg[0], [2]int{fg[1], fg[2]}, fg[3] != 0
 						for setting := 0; setting < 4; setting++ {
 							for _, pro := range []int{0, 1} {
 								hs := c01Side{id: victim, pro: pro}
@@ -745,7 +793,7 @@ func c01Generate(t *testing.T, rnd *verifh.Rand, types []int, thorough bool) []c
 									hs.sess = 1
 								}
 								fs := c01Side{id: 3, sess: 1, dis: 1, exp: 0, pro: pro}
-								c := c01Case{kt: kt, forge: true, finit: finit == 1, fclaim: claim, fsigner: sg[0], fsm: sg[1]}
+								c := c01Case{kt: kt, forge: true, finit: finit == 1, fclaim: claim, fsigner: sg[0], fsm: sg[1], fearly: early}
 								c.sd[vrole], c.sd[1-vrole] = hs, fs
 								cases = append(cases, c)
 							}
@@ -777,6 +825,40 @@ func c01Generate(t *testing.T, rnd *verifh.Rand, types []int, thorough bool) []c
 	return cases
 }
 
+// (F) the key type of the NAMED identity x the key type of the identity that answers, for all four key
+// types on both counts and in both roles (always all 16 x 4, whatever the tier): an ID that embeds its key
+// (Ed25519, Secp256k1), one that is the hash of its key (ECDSA, RSA), and a string that is no peer ID at
+// all are named while somebody else answers; the handshake must fail on the naming side.  Controls: the
+// answering peer itself is named; the check is disabled.
+func c01GenerateKeyTypeCross(rnd *verifh.Rand) []c01Case {
+	var cases []c01Case
+	for ktI := 0; ktI < 4; ktI++ {
+		for ktR := 0; ktR < 4; ktR++ {
+			for role := 0; role < 2; role++ { // the side that names a peer
+				self, other := 1+role, 2-role
+				mk := func(sess, dis, exp, x int) c01Case {
+					c := c01Case{kt: [2]int{ktI, ktR}}
+					c.sd[role] = c01Side{id: self, sess: sess, dis: dis, exp: exp}
+					c.sd[1-role] = c01Side{id: other, sess: rnd.Intn(2)}
+					if role == 1 {
+						c.sd[0].exp = 2 // the initiator names the responder (a plain Transport refuses "")
+					}
+					c.xkt[role] = x
+					return c
+				}
+				for sess := 0; sess < 2; sess++ {
+					cases = append(cases, mk(sess, 0, other, 0))
+					for x := 1; x <= 5; x++ {
+						cases = append(cases, mk(sess, 0, 3, x))
+					}
+				}
+				cases = append(cases, mk(1, 1, 3, 1+rnd.Intn(5)))
+			}
+		}
+	}
+	return cases
+}
+
 // ---- tests ---------------------------------------------------------------------------------
 func TestVerifNothing(t *testing.T) {}
 
@@ -794,9 +876,10 @@ func TestVerifC01Noise(t *testing.T) {
 	}
 	defer out.Close()
 	types, thorough := c01Types()
-	c01GenKeys(t, types)
+	c01GenKeys(t, []int{0, 1, 2, 3})
 	rnd := verifh.NewRand(verifh.Seed())
 	cases := c01Generate(t, rnd, types, thorough)
+	cases = append(cases, c01GenerateKeyTypeCross(rnd)...)
 	lines := make([][]int64, len(cases))
 	tripped := make([]bool, len(cases))
 	var wg sync.WaitGroup
@@ -835,11 +918,26 @@ func TestVerifC01Noise(t *testing.T) {
 		}
 		if cases[i].forge {
 			out.Cover("noise_forged_payload")
+			switch cases[i].fclaim {
+			case 6:
+				out.Cover("noise_forged_payload_zero_length_msg" + []string{"2", "3"}[l[19]])
+			case 7:
+				out.Cover("noise_forged_payload_not_protobuf")
+			}
+			if cases[i].fearly {
+				out.Cover("noise_forged_payload_also_in_msg1")
+			}
+		}
+		for r := 0; r < 2; r++ {
+			if x := cases[i].xkt[r]; x != 0 {
+				xn := []string{"", "ed25519", "ecdsa", "secp256k1", "rsa", "malformed"}[x]
+				out.Cover("noise_named_" + xn + "_answered_by_" + []string{"ed25519", "ecdsa", "secp256k1", "rsa"}[cases[i].kt[1-r]] + []string{"_outbound", "_inbound"}[r])
+			}
 		}
 		if tripped[i] {
 			out.Cover("noise_stalled_network_closed")
 		}
-		out.Cover("noise_keytypes_" + string(rune('0'+l[1])) + string(rune('0'+l[2])))
+		out.Cover("noise_keytypes_" + string(rune('0'+l[1]%10)) + string(rune('0'+l[2]%10)))
 		if cases[i].fault {
 			out.Cover("noise_panic_" + []string{"conn_write", "conn_read", "earlydata_send", "earlydata_received"}[cases[i].pstage])
 		}
@@ -862,8 +960,14 @@ func TestVerifC01NoiseReplay(t *testing.T) {
 	if len(l) < 28 || l[0] != 1 {
 		t.Skip("not a noise case")
 	}
-	c01GenKeys(t, []int{int(l[1]), int(l[2])})
-	c := c01Case{kt: [2]int{int(l[1]), int(l[2])}}
+	c := c01Case{kt: [2]int{int(l[1] % 10), int(l[2] % 10)}, xkt: [2]int{int(l[1] / 10), int(l[2] / 10)}}
+	need := []int{c.kt[0], c.kt[1]}
+	for r := 0; r < 2; r++ {
+		if x := c.xkt[r]; x >= 1 && x <= 4 {
+			need = append(need, x-1)
+		}
+	}
+	c01GenKeys(t, need)
 	for r := 0; r < 2; r++ {
 		b := 3 + 5*r
 		c.sd[r] = c01Side{int(l[b]), int(l[b+1]), int(l[b+2]), int(l[b+3]), int(l[b+4])}
@@ -890,6 +994,7 @@ func TestVerifC01NoiseReplay(t *testing.T) {
 		c.e = c01Edit{op: 6, msg: em}
 	}
 	c.forge, c.finit, c.fclaim, c.fsigner, c.fsm = l[18] != 0, l[19] != 0, int(l[20]), int(l[21]), int(l[22])
+	c.fearly = l[18] == 2
 	c.fault, c.pinit, c.pstage, c.pidx = l[23] != 0, l[24] != 0, int(l[25]), int(l[26])
 	line, _ := c01Run(&c, nil)
 	out.Case(line)
